@@ -251,13 +251,13 @@ pub struct PipeResult {
     pub kernel: Option<(String, String)>,
 }
 
-fn evil_path(text: &str) -> PathBuf {
-    static N: AtomicU64 = AtomicU64::new(0);
-    let dir = std::env::temp_dir().join(format!("mdharness-process-{}", std::process::id()));
-    let _ = std::fs::create_dir_all(&dir);
-    let p = dir.join(format!("evil{}.json", N.fetch_add(1, Ordering::Relaxed)));
-    let _ = std::fs::write(&p, text);
-    p
+/// the evil-json file of option set 3 (removed when the handle is dropped)
+fn evil_file(text: &str) -> Option<tempfile::NamedTempFile> {
+    use std::io::Write;
+    let mut f = tempfile::Builder::new().prefix("mdharness-evil").suffix(".json").tempfile().ok()?;
+    f.write_all(text.as_bytes()).ok()?;
+    f.flush().ok()?;
+    Some(f)
 }
 
 fn run_pipeline(m: Materialised) -> PipeResult {
@@ -295,7 +295,7 @@ fn run_pipeline(m: Materialised) -> PipeResult {
     // scanning asks the symbolizer about every candidate word (up to 160 per frame)
     let limit = walk_limit.saturating_mul(200).saturating_add(10_000).min(200_000_000);
     let provider = Counting { inner: Symbolizer::new(m.supplier), calls: AtomicU64::new(0), limit, walks: AtomicU64::new(0), walk_limit };
-    let evil = m.evil.as_deref().map(evil_path);
+    let evil = m.evil.as_deref().and_then(evil_file);
     let mut subs = PendingProcessorStatSubscriptions::default();
     subs.thread_count = true;
     subs.frame_count = true;
@@ -309,13 +309,11 @@ fn run_pipeline(m: Materialised) -> PipeResult {
     };
     if m.opt == 3 {
         options.stat_reporter = Some(&stats);
-        options.evil_json = evil.as_deref();
+        options.evil_json = evil.as_ref().map(|f| f.path());
     }
     let rt = tokio::runtime::Builder::new_current_thread().enable_all().build().unwrap();
     let processed = catch(|| rt.block_on(minidump_processor::process_minidump_with_options(&dump, &provider, options)));
-    if let Some(p) = &evil {
-        let _ = std::fs::remove_file(p);
-    }
+    drop(evil);
     let state: ProcessState = match processed {
         Err(msg) => {
             res.process = "panic".into();
@@ -547,7 +545,7 @@ impl Engine for Process {
     fn generate(&self, tier: Tier, rng: &mut Rng, emit: &mut dyn FnMut(String)) {
         let quick = tier == Tier::Quick;
         // 1. all CPU x OS x option combinations, rich feature sets
-        let rounds = if quick { 2 } else { 30 };
+        let rounds = if quick { 4 } else { 30 };
         for round in 0..rounds {
             for cpu in pg::CPUS {
                 for os in pg::OSES {
@@ -573,7 +571,7 @@ impl Engine for Process {
             }
         }
         // 2. focused streams: well-formed dumps aimed at one mechanism each
-        let n = if quick { 600 } else { 40000 };
+        let n = if quick { 3000 } else { 40000 };
         for i in 0..n {
             let cpu = match i % 6 {
                 0 | 1 => "amd64",
@@ -594,7 +592,7 @@ impl Engine for Process {
             emit(render_gen(rng.below(1 << 40), cpu, os, feat, opt, None));
         }
         // 3. mutated repository dumps
-        let n = if quick { 150 } else { 10000 };
+        let n = if quick { 600 } else { 10000 };
         for i in 0..n {
             let name = TESTDATA[i % TESTDATA.len()];
             let k = if i < TESTDATA.len() { 0 } else { rng.range(1, 8) };
